@@ -480,3 +480,10 @@ def run(ctx):
     boundaries.check_amounts(ctx, 'C09.RA', 'C09')
     from .. import errdisc
     errdisc.check(ctx, 'C09.RD', 'C09', 77)
+    from .. import tables
+    r12 = ctx.rule('C09.R12', 'TABLE', 'stream identifier parity predicates (client = odd, server = even non-zero, zero) agree with RFC 9113 5.1.1 (= C04.R9)')
+    tables.stream_id_predicates(r12, ctx.facts)
+    r13 = ctx.rule('C09.R13', 'TABLE', 'frame flag predicates agree with the RFC 9113 flag bits on all 256 flag octets (= C12.R11)')
+    tables.flag_predicates(r13, ctx.facts)
+    from .. import boundaries as _b
+    _b.check_predicates(ctx, 'C09.RP', 'C09')
